@@ -70,6 +70,11 @@ class FakeSnowflakeConnection:
             create_schema
             and self.database
             and self.schema
+            # can't create the schema if the database doesn't exist (and wasn't created above)
+            and duck_conn.execute(
+                f"""select * from information_schema.schemata
+                where upper(catalog_name) = '{self.database}'"""
+            ).fetchone()
             and not duck_conn.execute(
                 f"""select * from information_schema.schemata
                 where upper(catalog_name) = '{self.database}' and upper(schema_name) = '{self.schema}'"""
